@@ -156,10 +156,17 @@ def main():
         case = task["case"]
         reg = SourceRegistry()
         lib = make_lib(C)
-        mod, fnode = reg.function(C.target, C.locate)
-        out["function"] = mod.describe(fnode, C.target.split("::", 1)[1])
-        out["function"]["slice"] = C.slice_note
-        if C.finite is not None:
+        missing = None
+        try:
+            mod, fnode = reg.function(C.target, C.locate)
+            out["function"] = mod.describe(fnode, C.target.split("::", 1)[1])
+            out["function"]["slice"] = C.slice_note
+        except CheckerError as e:
+            # the function is no longer defined where the contract expects it (e.g. generated by a decorator now): no proof is
+            # possible, but the contract can still be evaluated natively on whatever Python resolves the name to
+            missing = "CHECKER-ERROR %s" % e
+            fnode = None
+        if C.finite is not None and missing is None:
             # exhaustive exact decision over a finite domain read from the AST (level: proved-finite)
             for rec in C.finite(reg):
                 oid, ok, detail = rec[0], rec[1], rec[2]
@@ -189,6 +196,8 @@ def main():
         # ---- 1. the proof
         proof_error = None
         try:
+            if missing is not None:
+                raise CheckerError(missing.replace("CHECKER-ERROR ", ""))
             run = prove(C, case, reg, contracts, lib)
             out["obligations"] = [o.as_dict() for o in run.obls.values()]
             out["npaths"] = run.npaths
